@@ -460,7 +460,21 @@ def extender_specs(draw) -> dict:
     offset = draw(st.one_of(st.integers(0, length - 1), st.sampled_from([0, length - gene_size, length - 1, length // 2])))
     if not circular:
         offset = draw(st.integers(0, length - total))
-    anchor_index = draw(st.integers(0, count - 1))
+    anchor_indices = set(draw(st.lists(st.integers(0, count - 1), min_size=1, max_size=3)))
+    triple = draw(st.booleans())
+    if triple:
+        # three anchor groups that only come within the cutoff of each other through chains of extender genes
+        count = draw(st.integers(9, 13))
+        first = draw(st.integers(0, 2))
+        step = draw(st.integers(3, 4))
+        anchor_indices = {first, first + step, min(count - 1, first + 2 * step)}
+        gaps = [draw(st.sampled_from([0, 1, cutoff - 1, cutoff - 1, cutoff - 1, cutoff, cutoff + 1])) for _ in range(count)]
+        total = sum(gaps) + count * gene_size
+        if total >= length:
+            length = total + draw(st.sampled_from([1, cutoff - 1, cutoff + 5, 3 * cutoff]))
+        offset = draw(st.one_of(st.integers(0, length - 1), st.sampled_from([0, length - gene_size, length // 2])))
+        if not circular:
+            offset = draw(st.integers(0, length - total))
     extender = draw(st.sampled_from([["id", "b"], ["cds", ["and", [["id", "b"], ["id", "c"]]]], ["cds", ["or", [["id", "b"], ["id", "c"]]]]]))
     genes, hits = [], {}
     pos = 0
@@ -478,10 +492,11 @@ def extender_specs(draw) -> dict:
             loc = {"parts": [[start, end]], "strand": strand, "kind": "simple"}
         name = f"g{index}"
         genes.append({"name": name, "loc": loc})
-        if index == anchor_index or (abs(index - anchor_index) == 1 and draw(st.integers(0, 3)) == 0):
+        if index in anchor_indices or (any(abs(index - a) == 1 for a in anchor_indices) and draw(st.integers(0, 3)) == 0):
             hits[name] = {"a": 100}
         else:
-            hits[name] = {p: 100 for p in draw(st.sampled_from([["b"], ["b", "c"], ["b"], ["c"], [], ["d"]]))}
+            pool = [["b"], ["b", "c"], ["b"], ["c"], [], ["d"]] if not triple else [["b", "c"], ["b", "c"], ["b", "c"], ["b"], ["d"]]
+            hits[name] = {p: 100 for p in draw(st.sampled_from(pool))}
         pos += gene_size
     rules_spec = [{"name": "r0", "conditions": ["id", "a"], "superiors": [], "extenders": extender, "cutoff": cutoff,
                    "neighbourhood": draw(st.sampled_from([0, 2, cutoff]))}]
